@@ -803,11 +803,15 @@ func cmdC03(args []string) int {
 		}
 		listf := filepath.Join(*dir, "confirm.ndjson")
 		resf := filepath.Join(*dir, "confirm.res")
-		b, _ := json.Marshal(m)
+		// ... with a three times longer bound: other processes of the machine may still be competing for memory and cores (a forged
+		// block size of 1 GB makes every task allocate that much; alone it takes seconds, 45 s were once exceeded under external load)
+		m3 := m
+		m3.Bound = 3 * m.Bound
+		b, _ := json.Marshal(m3)
 		os.WriteFile(listf, append(b, '\n'), 0644)
 		os.Remove(resf)
 		exec.Command(self, "child-decode", listf, resf).Run()
-		confirmed := map[string]any{"id": m.ID, "status": "hang", "ms": float64(m.Bound), "stderr": "confirmed alone"}
+		confirmed := map[string]any{"id": m.ID, "status": "hang", "ms": float64(m3.Bound), "stderr": "confirmed alone"}
 		if f, e := os.Open(resf); e == nil {
 			sc := bufio.NewScanner(f)
 			for sc.Scan() {
